@@ -174,6 +174,30 @@ def search(ctx):
                             fail(('value', name), {'api': name}, '%s raised %s with checks off on a valid input' % (name, type(e).__name__))
                         xfab.CHECKS.activated = True
             ctx.count(('hist', h), hist='search:histories', sample={'history': hist[:5]} if h == 0 else None)
+        # pairs of invalid matrices whose defects cancel in the product U1'.U2 (A.R1 and inv(A)'.R2 with det A = 1; two improper matrices): Umis must reject each argument
+        xfab.CHECKS.activated = True
+        for k in range(ctx.n(12, 60)):
+            R1, R2 = G.rotation(rng, 'uniform'), G.rotation(rng, 'uniform')
+            if k % 3 == 2:
+                a, b = R1.copy(), R2.copy()
+                a[:, 0] = -a[:, 0]
+                b[:, 0] = -b[:, 0]
+            else:
+                Sh = np.eye(3)
+                i, j = rng.sample(range(3), 2)
+                Sh[i, j] = rng.choice([-1, 1]) * 10 ** rng.uniform(-2.3, 0)
+                if k % 3 == 1:
+                    Sh = G.rotation(rng, 'uniform').dot(np.diag([1.3, 1 / 1.3, 1.0])).dot(Sh)
+                a, b = Sh.dot(R1), np.linalg.inv(Sh).T.dot(R2)
+            ctx.count(('pair', k), hist='search:Umis:cancelling invalid pairs')
+            try:
+                symmetry.Umis(a, b, rng.randint(1, 7))
+                fail(('miss', 'Umis pair'), {'api': 'symmetry.Umis', 'U1': a.tolist(), 'U2': b.tolist()},
+                     "symmetry.Umis did not raise ValueError although neither argument is a rotation (their defects cancel in U1'.U2)")
+            except ValueError:
+                pass
+            except Exception as e:
+                fail(('exc', 'Umis pair'), {'api': 'symmetry.Umis'}, 'symmetry.Umis raised %s on an invalid pair' % type(e).__name__)
     finally:
         xfab.CHECKS._run_checks = bool(orig)
     return fails
@@ -184,11 +208,12 @@ def match_known(f, e):
 
 
 SPEC = dict(
-    props=['props/C20.v'], want=set(), search=search, replay_known=lambda ctx, e: False, match_known=match_known,
+    props=['props/C20.v'], want={'checks'}, search=search, replay_known=lambda ctx, e: False, match_known=match_known,
     rule='theorems: all assignment sequences to the switch (unbounded), all matrices. Search: histories interleaving assignments of valid and invalid values '
          '(True, False, 0, 1, strings, None, floats, numpy bools) with calls of the 15 guarded APIs on valid inputs (exact, float32-rounded, perturbed by < 1e-7) and on '
          'clearly invalid ones (perturbation 1e-3..1, improper, out-of-range Euler angle, left-handed UBI). distinct by (history, step).',
-    trusted=['Coq kernel; R axioms', 'model/Checks.v: hand model of _checkState and of the allclose predicates (tied by the histories)'],
+    trusted=['Coq kernel; R axioms', 'T3c vlib/checksgen.py: AST translator of xfab/checks.py (three predicates with their tolerances, the setter) and of the guard sites in tools.py / laue.py / symmetry.py, fail closed; numpy.allclose(a, b) read as |a - b| <= atol + rtol |b| entrywise with the documented defaults',
+             'model/Checks.v: hand model, proved equal to the generated definitions on every run (proofs/P20_tie.v) and exercised by the histories'],
     assumptions=['__debug__ is True (no python -O)'],
 )
 
@@ -196,8 +221,9 @@ MANIFEST = dict(
     text='Coq: the switch state after any sequence of assignments is the last valid (True/False) value, invalid assignments raise and change nothing (induction); '
          'a guarded call raises exactly when the switch is on and the check fails, and returns the unguarded value otherwise; the rotation check (allclose predicates '
          'with the code\'s tolerances) accepts every exact proper rotation and rejects every matrix whose U\'U or determinant deviates beyond the tolerance. '
-         'The numeric band (float32-precision, 1e-7 perturbations accepted; 1e-3 rejected) and all 15 guard sites are decided on the implementation by call histories.',
+         'The predicates, their tolerances, the setter and the list of sixteen guard sites are regenerated from the source on every run (AST translator) and proved to be the model\'s; '
+         'the numeric band (float32-precision, 1e-7 perturbations accepted; 1e-3 rejected, also for unit-length non-orthogonal columns) is exercised on the implementation by call histories.',
     design_ref='DESIGN.md section 5 C20',
-    note='Trusted: Coq kernel, R axioms, hand model of checks.py (histories on the real package).',
-    technique='Coq induction over assignment histories + real-arithmetic lemmas on a hand model; differential histories',
+    note='Trusted: Coq kernel, R axioms, the AST translator of checks.py / guard sites, numpy.allclose semantics.',
+    technique='Coq induction over assignment histories + real-arithmetic lemmas on a model regenerated from the AST of checks.py; differential histories',
 )
